@@ -4,6 +4,7 @@ import json, os
 HERE = os.path.dirname(os.path.abspath(__file__))
 props = [json.loads(l) for l in open(os.path.join(HERE, 'properties.jsonl'))]
 CLAIMED = {}
+TECH = ""
 exec(open(os.path.join(HERE, 'manifest_claims.py')).read())
 checks = []
 na = []
@@ -20,7 +21,7 @@ for p in props:
             'engine': 'pyvc',
             'level_claimed': {'category': c.get('category', 'proof'), 'text': c['text'], 'design_ref': c.get('design_ref', f'DESIGN.md section 5 {pid}')},
             'level_note': c['note'],
-            'technique': c.get('technique', 'contracts on the real functions; VCs generated from the AST of /repo and discharged by z3/cvc5'),
+            'technique': c.get('technique', TECH),
         })
     else:
         na.append({'property_id': pid, 'reason': NOT_APPLICABLE.get(pid, 'check not built yet in this round (contract-based design in DESIGN.md section 5); not claimed')})
